@@ -877,12 +877,14 @@ class Rig:
                 raise ValueError(k)
 
     def drain(self):
-        for _ in range(3):
+        for _ in range(20):
             for si in range(len(self.scos)):
                 while self.workers[si]._operations_queue.qsize():
                     self.tick(si)
-        for ci in range(len(self.consumers)):
-            self.deliver(ci, None)
+            for ci in range(len(self.consumers)):
+                self.deliver(ci, None)
+            if not any(w._operations_queue.qsize() for w in self.workers) and not any(c.outbox or c.lock_events for c in self.consumers):
+                break
 
     def pstate_line(self):
         return f'pstate {len(self.scos)}'
@@ -1027,6 +1029,8 @@ def gen_script(rng, rig_ops, cap, n_consumers, size, maxlen):
         evs = []
         for _ in range(n):
             x = rng.random()
+            if inside == 'at_lock':
+                x = 0.45 + 0.5 * x      # at the lock of call_operation only the notification thread / the workers move
             if x < 0.45 and counter[0] < size:
                 evs.append(mk_call(depth))
             elif x < 0.7:
